@@ -45,6 +45,11 @@ RECURSIVE Rank(_, _)
 Rank(S, x) == Cardinality({y \in S : y < x})
 ContLookup(L, start) == [l \in L |-> start + Rank(L, l)]
 
+(* create_continuous_elements_index: every table gets its own continuous index (each lookup depends on that table's labels only, *)
+(* so the order in which the tables are processed cannot matter - MC_ContAll models the implementation's order dependence)        *)
+AllTblSeq == <<"junction">> \o SetToSeq(BranchTables \cup NodeElTables)
+ContAll(net, start) == FoldLeft(LAMBDA acc, t : Relabel(acc, t, ContLookup(TblLabs(acc, t), start)), net, AllTblSeq)
+
 (* ------------------------------ dropping -------------------------------- *)
 JRefs(e) == {e.a} \cup (IF IsPipeValve(e) THEN {} ELSE {e.b}) \cup (IF e.tbl = "press_control" THEN {e.cj} ELSE {})
 TouchesJ(e, S) == JRefs(e) \cap S # {}
